@@ -359,6 +359,9 @@ m("la-noretry", "lock.atomic", B+"common/validator_pubkeys.go", "\t\tpc.rwLock.U
 m("cr-retry-unguarded", "cache.recursion", B+"common/validator_pubkeys.go", "\tif index < expected {\n", "\tif index <= expected+1 || pub == (BLSPubkey{}) {\n", "AddValidator.recurse#4")
 m("lh-retry-locked", "lock.reentry", B+"common/validator_pubkeys.go", "\t\tpc.rwLock.Unlock()\n\t\treturn pc.AddValidator(index, pub)\n\t}\n\tdefer pc.rwLock.Unlock()\n", "\t\tdefer pc.rwLock.Unlock()\n\t\treturn pc.AddValidator(index, pub)\n\t}\n\tdefer pc.rwLock.Unlock()\n", "AddValidator->AddValidator")
 
+
+m("cmp-near-const", "cmp.spec", B+"common/shuffling.go", "if uint64(spec.MAX_COMMITTEES_PER_SLOT) < committeesPerSlot {", "if uint64(spec.TARGET_COMMITTEE_SIZE) < committeesPerSlot {", "common.CommitteeCount[")
+
 # lazy.init / lock.atomic positive cases are today's known findings (no mutant needed: they are violations on the tree)
 
 M = [x for x in M if not x["expect"].startswith("XX")]
